@@ -4,3 +4,36 @@ Import ListNotations.
 
 Lemma tokens_cover : tokens_ok = true.
 Proof. vm_compute. reflexivity. Qed.
+
+(* ---- API entry points: no write into an argument, none into module-level state (T4, regenerated every run) ---- *)
+From Flox Require Import EffIR EffLaw Effects.
+
+Lemma api_certs_ok : check_all api_functions = true.
+Proof. vm_compute. reflexivity. Qed.
+
+Definition api_root_pure_b (f : fndef) : bool :=
+  negb (existsb (String.eqb (f_name f)) api_roots) || pure_fn f.
+
+Lemma api_roots_pure_b : forallb api_root_pure_b api_functions = true.
+Proof. vm_compute. reflexivity. Qed.
+
+Lemma api_roots_pure :
+  forall f, In f api_functions -> In (f_name f) api_roots -> f_stores f = [].
+Proof.
+  intros f Hin Hroot. pose proof api_roots_pure_b as H. rewrite forallb_forall in H. specialize (H f Hin).
+  unfold api_root_pure_b in H. apply orb_prop in H. destruct H as [H|H].
+  - exfalso. apply negb_true_iff in H. assert (existsb (String.eqb (f_name f)) api_roots = true); [|congruence].
+    apply existsb_exists. exists (f_name f). split; [exact Hroot| apply String.eqb_refl].
+  - unfold pure_fn in H. destruct (f_stores f); [reflexivity| discriminate].
+Qed.
+
+(* every entry point is present in the generated list (a root that disappears from the source is not silently dropped) *)
+Definition root_present_b (r : string) : bool := existsb (fun f => String.eqb (f_name f) r) api_functions.
+Lemma api_roots_present : forallb root_present_b api_roots = true /\ Nat.leb 8 (length api_roots) = true.
+Proof. split; vm_compute; reflexivity. Qed.
+
+(* the module-level state is a pseudo-parameter (the last one) of every function, so "no stored parameter" includes it *)
+Definition has_globals_param (f : fndef) : bool :=
+  existsb (fun s => match s with SParam x i => String.eqb x globals_param && Nat.eqb (S i) (f_nparams f) | _ => false end) (f_body f).
+Lemma globals_is_a_parameter : forallb has_globals_param api_functions = true.
+Proof. vm_compute. reflexivity. Qed.
